@@ -5,4 +5,47 @@
 #define ZSTD_VERIF_HOOKS_H
 #define ZSTD_VERIF_LOOP(...)  __VA_ARGS__
 #define ZSTD_VERIF_GHOST(...) __VA_ARGS__
+
+/* ---- thread pool (lib/common/pool.c): monitor-invariant proof, see units/c12_pool_monitor.c ----
+ * The contract text lives here; pool.c only names it at the loop it belongs to. */
+struct zstd_verif_monitor_s {
+    int held;                       /* the queue mutex is held by the thread under proof */
+    unsigned long accepted;         /* ghost: jobs ever accepted into the queue */
+    unsigned long dequeued;         /* ghost: jobs ever taken out of the queue */
+    unsigned long snap_accepted;    /* value of `accepted` when the lock was last acquired */
+    int pending_call;               /* thread-local ghost: a dequeued job not yet executed */
+    void* popped_opaque;            /* thread-local ghost: argument of that job */
+    unsigned long executed;         /* thread-local ghost: jobs this thread has run */
+};
+extern struct zstd_verif_monitor_s zstd_verif_monitor;
+void zstd_verif_pool_accepted(void* ctx);
+void zstd_verif_pool_dequeued(void* ctx, void* opaque);
+
+#define ZSTD_VERIF_POOL_COUNT(c) \
+    ((c)->queueEmpty ? 0ul : ((c)->queueSize == 1 ? 1ul : \
+      (unsigned long)((c)->queueTail > (c)->queueHead ? (c)->queueTail - (c)->queueHead : (c)->queueTail + (c)->queueSize - (c)->queueHead)))
+/* I_pool: what every critical section may assume on entry and must re-establish before releasing the mutex */
+#define ZSTD_VERIF_POOL_INV(c) \
+    ( (c)->queueSize >= 1 && (c)->queueSize <= ZSTD_VERIF_POOL_MAXQ \
+   && (c)->queueHead < (c)->queueSize && (c)->queueTail < (c)->queueSize \
+   && ((c)->queueSize == 1 || ((c)->queueEmpty != 0) == ((c)->queueHead == (c)->queueTail)) \
+   && ((c)->queueEmpty == 0 || (c)->queueEmpty == 1) \
+   && (c)->threadLimit >= 1 && (c)->threadLimit <= (c)->threadCapacity \
+   && zstd_verif_monitor.accepted - zstd_verif_monitor.dequeued == ZSTD_VERIF_POOL_COUNT(c) )
+#ifndef ZSTD_VERIF_POOL_MAXQ
+#  define ZSTD_VERIF_POOL_MAXQ 4096
+#endif
+/* the state the queue mutex protects (what another thread may change while we do not hold it) + the ghosts */
+#define ZSTD_VERIF_POOL_FRAME(c) \
+    (c)->queueHead, (c)->queueTail, (c)->queueEmpty, (c)->numThreadsBusy, (c)->threadLimit, (c)->shutdown, \
+    __CPROVER_object_whole((c)->queue), __CPROVER_object_whole(&zstd_verif_monitor)
+/* a loop that waits on a condition variable: lock held, invariant holds whenever the condition is re-tested */
+#define ZSTD_VERIF_POOL_WAITLOOP(c) \
+    __CPROVER_assigns(ZSTD_VERIF_POOL_FRAME(c)) \
+    __CPROVER_loop_invariant(zstd_verif_monitor.held == 1 && zstd_verif_monitor.pending_call == 0 && ZSTD_VERIF_POOL_INV(c) \
+                             && zstd_verif_monitor.snap_accepted == zstd_verif_monitor.accepted)
+/* the worker's outer loop: between two jobs the lock is not held and no dequeued job is left unexecuted */
+#define ZSTD_VERIF_POOL_WORKERLOOP(c) \
+    __CPROVER_assigns(ZSTD_VERIF_POOL_FRAME(c)) \
+    __CPROVER_loop_invariant(zstd_verif_monitor.held == 0 && zstd_verif_monitor.pending_call == 0)
 #endif
